@@ -132,5 +132,9 @@ inline void verif_atomic_thread_fence(memory_order o) noexcept {
 #include <sys/syscall.h>
 extern "C" long verif_syscall(long nr, ...);
 #define syscall verif_syscall
+// threads created by the library while a logical thread runs (RML workers) become logical threads of the cooperative scheduler
+#include <pthread.h>
+extern "C" int verif_pthread_create(pthread_t*, const pthread_attr_t*, void* (*)(void*), void*);
+#define pthread_create verif_pthread_create
 #define atomic_thread_fence verif_atomic_thread_fence
 #define atomic verif_atomic
